@@ -567,6 +567,10 @@ impl<'a, T: std::fmt::Debug> WaitingState<'a, T> {
         // single release regardless of how many taps were actually done.
         let evict_same_coord_events = |num_taps: u16, queued: &mut Queue| {
             let mut releases_to_remove = num_taps.saturating_sub(1);
+            // Only the presses that were counted as taps belong to this tap-dance. A press that
+            // arrived too late to be counted (e.g. in the very tick the timeout ran out) must
+            // stay queued so that it starts a new tap-dance instead of vanishing.
+            let mut presses_to_remove = num_taps.saturating_sub(1);
             queued.retain(|s| {
                 let mut do_retain = true;
                 if self.is_corresponding_release(&s.event) {
@@ -574,8 +578,9 @@ impl<'a, T: std::fmt::Debug> WaitingState<'a, T> {
                         do_retain = false;
                         releases_to_remove = releases_to_remove.saturating_sub(1)
                     }
-                } else if self.is_corresponding_press(&s.event) {
+                } else if self.is_corresponding_press(&s.event) && presses_to_remove > 0 {
                     do_retain = false;
+                    presses_to_remove = presses_to_remove.saturating_sub(1)
                 }
                 do_retain
             });
